@@ -145,6 +145,11 @@ func propC05(run *Run, n int) {
 		return c
 	}
 	choices = append(choices, optChoice{OptPrec(0.001), precCfg, "Precision(0.001)"}, optChoice{OptPrec(0), precCfg, "Precision(0)"})
+	// C05 is not restricted to null-free documents in merge mode
+	withNull := func() GenCfg { c := DefaultCfg(); c.ScalarBias = 4; return c }
+	withNullDeep := func() GenCfg { return DeepCfg() }
+	choices = append(choices, optChoice{OptMerge, withNull, "MERGE-nulls"}, optChoice{OptMerge, withNullDeep, "MERGE-nulls-deep"},
+		optChoice{OptSetMrg, withNull, "SET+MERGE-nulls"}, optChoice{OptMsetMrg, withNull, "MULTISET+MERGE-nulls"})
 	for i := 0; i < n; i++ {
 		ch := choices[r.Intn(len(choices))]
 		cfg := ch.cfg()
